@@ -227,12 +227,17 @@ def r11_1(ctx):
                     want_gp = [-det(P1, rg), vjp(P1, y, a), vjp(P1, theta, a)]
                     dgdy = vjp(nf.linear("sum_all", (), Gv), y, Rat.const(1))
                     w = a * v2 * dgdy
-                    avg = vjp(Gv, y, nf.linear("DETACH", (), a * v2 * Gv))
-                    savg = nf.linear("sum_all", (), avg)
-                    want_ms = [vjp(Gv, y, v2 * Gv), vjp(Gv, y, w) - vjp(savg, y, Rat.const(1)),
-                               vjp(Gv, theta, w) - vjp(savg, theta, Rat.const(1))]
+                    # mixed partials from their definition: sum_i (a v2 g)_i d(dg_i/dy_i)/d(y, params) -- the weight is
+                    # the cotangent of a VJP of the diagonal derivative.  The same *value* is obtained by differentiating
+                    # vjp(g, y, c) with the weight c held constant by .detach() (symmetry of mixed partials); that form is
+                    # accepted here, where values are compared -- whether it stays differentiable is R11.6's business.
+                    c = a * v2 * Gv
+                    want_ms = [vjp(Gv, y, v2 * Gv), vjp(Gv, y, w) - vjp(dgdy, y, c), vjp(Gv, theta, w) - vjp(dgdy, theta, c)]
+                    savg = nf.linear("sum_all", (), vjp(Gv, y, nf.linear("DETACH", (), c)))
+                    want_ms_detached = [vjp(Gv, y, v2 * Gv), vjp(Gv, y, w) - vjp(savg, y, Rat.const(1)),
+                                        vjp(Gv, theta, w) - vjp(savg, theta, Rat.const(1))]
                     ok = isinstance(got, tuple) and len(got) == 2 and _cat_matches(got[0], want_gp) and \
-                        _cat_matches(got[1], want_ms)
+                        (_cat_matches(got[1], want_ms) or _cat_matches(got[1], want_ms_detached))
                     rep.check(ok, "R11.1", astq.loc(ms.fi), f"{ms.fi.key}::R11.1::milstein::{cell}",
                               f"adjoint Milstein pair for ({cell}) is `{[_show(x) for x in got] if isinstance(got, tuple) else got}`; "
                               f"prescribed: (adjoint g_prod of v1, [vjp(g, y, v2 g), product-rule partials minus mixed "
@@ -359,6 +364,48 @@ def r11_3(ctx):
     ctx.floor("R11.3", 50)
 
 
+def r11_6(ctx):
+    """'... and remains differentiable when enabled': with gradients enabled no returned block may contain a value that
+    was cut out of the graph.  `.detach()` is an opaque wrapper in the evaluation, so a detached factor anywhere inside a
+    returned block -- also inside the cotangent of an autograd call -- shows as a DETACH atom: the block then has a
+    grad_fn, but its derivative ignores the dependence of that factor on the state, the adjoint and the parameters."""
+    rep, model = ctx.rep, ctx.model
+    rep.rule("R11.6", "with gradients enabled no returned block of an adjoint vector field contains a detached factor")
+    dom = solvers.Domains(model)
+    t, v = nf.sym("t", True), nf.sym("v")
+    yaug = nf.sym("y_aug")
+    n = 0
+    for st in dom.sde_types.values():
+        for nt in dom.noise_types.values():
+            obj, it, hooks, theta = make_adjoint(model, st, nt, True)
+            outs = []
+            fslot = obj.attrs.get("f")
+            outs.append((fslot.fi, "f", it.call(fslot, [t, yaug], {})))
+            gp = it.getattr(obj, "g_prod")
+            outs.append((gp.fi, "g_prod", it.call(gp, [t, yaug, v], {})))
+            fg = obj.attrs.get("f_and_g_prod")
+            r = it.call(fg, [t, yaug, v], {})
+            outs.append((fg.fi, "f_and_g_prod[0]", r[0]))
+            outs.append((fg.fi, "f_and_g_prod[1]", r[1]))
+            if nt == dom.noise_types.get("diagonal"):
+                ms = obj.attrs.get("g_prod_and_gdg_prod")
+                r = it.call(ms, [t, yaug, nf.sym("v1"), nf.sym("v2")], {})
+                outs.append((ms.fi, "g_prod_and_gdg_prod[0]", r[0]))
+                outs.append((ms.fi, "g_prod_and_gdg_prod[1]", r[1]))
+            for fi, label, cat in outs:
+                if not isinstance(cat, Cat):
+                    raise AnalysisError(f"{fi.qualname} does not return a flattened block list", where=astq.loc(fi))
+                for k, part in enumerate(cat.parts):
+                    cut = sorted({nf.show_atom(a)[:90] for a in nf.all_atoms(Rat.lift(part)) if a[0] == "lin" and a[1] == "DETACH"})
+                    n += 1
+                    rep.check(not cut, "R11.6", astq.loc(fi), f"{fi.key}::R11.6::{st}/{nt}::{label}::block{k}",
+                              f"{fi.qualname} ({st}/{nt}) with gradients enabled: block {k} of {label} contains the detached "
+                              f"factor(s) {cut}: the returned tensor has a grad_fn but its derivative with respect to the "
+                              f"state, the adjoint and the parameters ignores them (autograd and finite differences of the "
+                              f"function's own values disagree)", "no detached factor")
+    ctx.floor("R11.6", 100)
+
+
 def r11_4(ctx):
     rep, model = ctx.rep, ctx.model
     rep.rule("R11.4", "dispatch tables of AdjointSDE are total over 2x4; g, f_and_g, prod are raising stubs")
@@ -455,3 +502,4 @@ def run(ctx):
     ctx.guard(r11_3)
     ctx.guard(r11_4)
     ctx.guard(r11_5)
+    ctx.guard(r11_6)
